@@ -1324,7 +1324,8 @@ def floor_plans(base_seed, tier='quick'):
                                   disk={'floor.txt': 'STALE ' * 500} if t is cli else {},
                                   tasks=[t], schedule=[0] * len(t['ops'])))
     # long histories: many repetitions on a tiny model
-    for j, (kind, count) in enumerate([('api', 70), ('api', 140), ('api', 140), ('api', 270), ('sweep', 66), ('runs', 70)]):
+    for j, (kind, count) in enumerate([('api', 70), ('api', 140), ('api', 140), ('api', 270), ('api', 1100),
+                                       ('sweep', 66), ('sweep', 260), ('runs', 70), ('runs', 300)]):
         plans.append(long_plan(base_seed * 1000003 + 950000 + j, tier, kind, count))
     # sizes beyond library / block thresholds
     for j, kind in enumerate(['model', 'grid', 'cli', 'grid']):
@@ -1480,9 +1481,9 @@ def long_plan(run_seed, tier='quick', kind=None, count=None):
     rng = random.Random(run_seed)
     kind = kind or rng.choice(['api', 'api', 'sweep', 'runs'])
     if kind == 'api':
-        t = gen_long_api_task(rng, count or rng.choice([70, 70, 140, 270]))
+        t = gen_long_api_task(rng, count or rng.choice([70, 70, 140, 270, 520, 1100]))
     else:
-        t = gen_long_cli_task(rng, count or rng.choice([66, 70, 130]), kind)
+        t = gen_long_cli_task(rng, count or rng.choice([66, 70, 130, 130, 260]), kind)
     perturbed = rng.random() < 0.5
     return dict(version=1, run_seed=run_seed, tier=tier, long=True,
                 config='perturbed' if perturbed else 'plain',
@@ -1549,8 +1550,11 @@ def big_plan(run_seed, tier='quick', kind=None):
         ops = [['COMPUTE'], ['FAR', 0, 'r'], ['OBS_NUM'], ['SET_F', 1], ['COMPUTE'], ['FAR', 0, 'r'], ['OBS_NUM'],
                ['FAR', 1], ['OBS_REPORT', ['far-field', 'far-field-absolute']], ['SET_F', 0], ['COMPUTE'],
                ['FAR', 1], ['OBS_NUM']]
+        near_big = [[-5.0, -5.0, 0.5], [1.0, 1.0, 0.7], [11, 11, 9], None]      # 1089 points
+        if rng.random() < 0.5:
+            ops = ops + [['NEAR', 0], ['OBS_NUM'], ['SET_F', 1], ['COMPUTE'], ['NEAR', 0, 'r'], ['OBS_NUM']]
         tasks.append(dict(kind='api', builder='cli', argv=m.argv(), pool=pool[:2], fars=[far_big, far_big2],
-                          nears=[], ops=ops, template=m.template, env=m.env,
+                          nears=[near_big], ops=ops, template=m.template, env=m.env,
                           features=sorted(set(m.features + ['big_grid'])), probes=probes + ['big_grid'],
                           npulses=m.min_pulses() + 2 * len(m.geo)))
         sched = [0] * len(ops)
